@@ -429,8 +429,13 @@ impl SoVersion {
                     if i >= comps.len() - 1 {
                         break;
                     }
-                    if let Some(pre) = comp.rfind(|c: char| !c.is_ascii_digit()) {
-                        if let Ok(pre) = comp[pre + 1..].parse() {
+                    if let Some((pre, last_non_digit)) = comp
+                        .char_indices()
+                        .rev()
+                        .find(|(_, c)| !c.is_ascii_digit())
+                    {
+                        // Skip the whole character, it may be more than one byte long
+                        if let Ok(pre) = comp[pre + last_non_digit.len_utf8()..].parse() {
                             *comps[i + 1] = pre;
                             break;
                         }
